@@ -28,7 +28,7 @@ func (c17) Rule() string {
 		"slice/map-backed nodes vs the model list for every key type. A shape is distinct per (format, law, sign-pattern of the operands' " +
 		"denoted order / list size+key-type+hit-or-miss); trivial = pair of identical operands for order laws"
 }
-func (c17) Exhaustive(string) bool { return false }
+func (c17) Exhaustive(string) bool   { return false }
 func (c17) MinEvals(tier string) int { return 100000 }
 
 type c17fmt struct {
